@@ -224,16 +224,26 @@ def rule_table_choice(chk, fb, prefix="C12"):
         "table choice follows the raw sheets: the save starts from a copy of the loaded string table exactly when some sheet is not deserialised (whose raw XML holds indexes into it), and from an empty table otherwise",
         floor=1,
     )
+    sites = []
     for r in save_roots(fb):
-        b = fb.mir[r]
-        fl = Flow(fb, b)
-        cfg = CFG(b)
-        for bi, t in fl.calls(lambda t: t.get("fn") in NEW):
-            # definitions of the argument: which blocks assign it from a clone of workbook state / from default
+        b0 = fb.mir[r]
+        fl0 = Flow(fb, b0)
+        for bi, t in fl0.calls(lambda t: t.get("fn") in NEW):
             arg = t["args"][0]
             if "p" not in arg:
                 continue
-            defs = fl.defs.get(arg["p"]["l"], [])
+            defs0 = fl0.defs.get(arg["p"]["l"], [])
+            helper = [d_[3]["fn"] for d_ in defs0 if d_[0] == "call" and d_[3].get("fn") in fb.mir and "SharedStringTable" in fb.ty(fb.mir[d_[3]["fn"]]["locals"][0]["t"]) and fb.mir[d_[3]["fn"]]["kind"] == "Fn"]
+            if len(defs0) == 1 and helper:
+                sites.append((r, helper[0], 0))  # the choice is made by a helper that returns the table
+            else:
+                sites.append((r, r, arg["p"]["l"]))
+    for r, fn_, loc_ in sites:
+        b = fb.mir[fn_]
+        fl = Flow(fb, b)
+        cfg = CFG(b)
+        for _once in (0,):
+            defs = fl.defs.get(loc_, [])
             clone_blocks = [d[1] for d in defs if d[0] == "call" and d[3].get("fn", "").endswith("::clone")]
             fresh_blocks = [d[1] for d in defs if d[0] == "call" and (d[3].get("fn", "").endswith("::default") or d[3].get("fn", "").endswith("::new"))]
             if not clone_blocks or not fresh_blocks:
